@@ -330,8 +330,7 @@ func C13(run *Run) {
 					f.User = Subj{T: u.T}
 				}
 				if f.Obj.T == "" && f.User.T == "" { // "at least one of Object or User" unless everything is empty
-					f.Rel = ""
-					f.Conds = []string{}
+					f.Rel = "" // (the Conditions filter still applies: "if present, it will be used to filter the results")
 				}
 				issue([]string{"Read", "ReadPage"}[r.Intn(2)], f, false)
 			case 2:
